@@ -117,6 +117,12 @@ fn binary(t: &mut Tasks) {
     t!(t, [u16; 2], vec![[0, 65535]]);
     t!(t, String, vec![String::new(), "a".into(), "é€".into(), "x".repeat(300)]);
     t!(t, Vec<u8>, vec![vec![], vec![0], vec![1, 2], vec![7; 5000]]);
+    // lengths around the pre-allocation bound (4096) of the chunked readers and its multiples
+    t!(t, Vec<u8>, [4095usize, 4096, 4097, 8192, 12288].iter().map(|n| (0..*n).map(|i| (i % 251) as u8).collect()).collect());
+    t!(t, String, [4095usize, 4096, 4097, 8192, 12288].iter().map(|n| "s".repeat(*n)).collect());
+    t!(t, Vec<u16>, [4095usize, 4096, 4097, 8192].iter().map(|n| (0..*n).map(|i| i as u16).collect()).collect());
+    t!(t, Vec<String>, vec![vec!["a".repeat(4096), "b".repeat(8192), "c".into()]]);
+    t!(t, OwnedParameter, [4096usize, 8192, 12288].iter().map(|n| OwnedParameter::new_unchecked(vec![5u8; *n])).collect());
     t!(t, Vec<u16>, vec![vec![], vec![0, 65535]]);
     t!(t, Vec<Vec<u8>>, vec![vec![], vec![vec![]], vec![vec![1], vec![]]]);
     t!(t, Vec<()>, vec![vec![], vec![(); 3]]);
